@@ -40,7 +40,15 @@ static WIT: [WitSlot; WIT_N] = [W0; WIT_N];
 static WIT_COUNT: AtomicU64 = AtomicU64::new(0);
 static OPEN_BRACKETS: AtomicI64 = AtomicI64::new(0);
 
+/// Deliveries that arrived without queued siginfo although every send is a sigqueue: the kernel does that when
+/// the user's pending-signal quota (RLIMIT_SIGPENDING) is exhausted - by some other process. Nothing can be
+/// concluded from such a run.
+static NO_INFO: AtomicU64 = AtomicU64::new(0);
+
 fn witness(info: &siginfo_t) {
+    if info.si_code != libc::SI_QUEUE {
+        NO_INFO.fetch_add(1, Ordering::SeqCst);
+    }
     let seq = crate::sig::si_value(info) as u64;
     let slot = &WIT[(seq as usize) % WIT_N];
     unsafe {
@@ -815,6 +823,12 @@ pub fn main(args: &[String]) -> i32 {
     }
     director::flush_counts();
     director::uninstall();
+    if NO_INFO.load(Ordering::SeqCst) > 0 {
+        emit(&J::obj().set("type", J::s("inconclusive")).set("reason", J::s(&format!(
+            "environment: {} deliveries arrived without queued siginfo (the user's RLIMIT_SIGPENDING quota was exhausted by another process; SigQ now {})",
+            NO_INFO.load(Ordering::SeqCst), crate::sig::sigq_usage().map(|(a, b)| format!("{}/{}", a, b)).unwrap_or_default()))));
+        return 2;
+    }
     let mut nviol = 0;
     for b in tot.bad09.iter().take(4) {
         emit_violation("C09", if b.contains("stable lost") { "stable-lost-signal" } else if b.starts_with("UNARMED") { "pending-without-armed-wakeup" } else { "consumer-ended-early" }, b);
